@@ -49,6 +49,22 @@ def _eval_assumptions(S_decl, vals):
     return True
 
 
+_BOUNDARY = None
+
+
+def boundary_ints():
+    global _BOUNDARY
+    if _BOUNDARY is None:
+        ks = list(range(0, 21)) + [24, 30, 31, 32, 33, 47, 48, 49, 50, 51, 52, 53, 54, 55, 62, 63, 64, 65, 66, 100, 127, 128, 129, 200, 256]
+        vals = set(range(-4, 5))
+        for k in ks:
+            for d in range(-3, 4):
+                vals.add((1 << k) + d)
+                vals.add(-(1 << k) + d)
+        _BOUNDARY = sorted(vals)
+    return _BOUNDARY
+
+
 def gen_inputs(interp, shape, rng, n_samples, max_len=10, int_range=14, exhaustive_len=None):
     """yield concrete input dicts satisfying the shape's assumptions"""
     if getattr(shape, 'gen', None) is not None:
@@ -57,6 +73,25 @@ def gen_inputs(interp, shape, rng, n_samples, max_len=10, int_range=14, exhausti
         return
     S = _decls(interp, shape)
     names = list(S.decls.items())
+    if names and all(d[0] == 'int' for _, d in names):
+        # integer-only shapes: sweep the power-of-two boundaries (codeword lengths, range limits, float precision limits)
+        cands = boundary_ints()
+        if len(names) == 1 and n_samples >= 100:
+            pool = [{names[0][0]: v} for v in cands]
+        else:
+            pool = [{nm: rng.choice(cands if rng.random() < 0.6 else list(range(-9, 70))) for nm, _ in names} for _ in range(n_samples * 6)]
+        produced = 0
+        for vals in pool:
+            try:
+                if not _eval_assumptions(S, vals):
+                    continue
+            except Exception:
+                continue
+            produced += 1
+            yield vals
+            if produced >= max(n_samples, len(cands) if len(names) == 1 and n_samples >= 100 else n_samples):
+                break
+        return
     tried = 0
     produced = 0
     while produced < n_samples and tried < n_samples * 60:
